@@ -1477,4 +1477,163 @@ example : (⟨[0, 2, 5, 9], [(1 : Int), 4, 1]⟩ : Rle Int).WF ∧ (1 : Nat) < 7
 
 example : dataRecs (sliceRle (⟨[0, 2, 5, 9], [(1 : Int), 4, 1]⟩ : Rle Int) 1 7) = [(0, 1, 1), (1, 4, 4), (4, 6, 1)] := by decide
 
+/-! ## `join_runs` under an equality test that is not Lean's `=` (IEEE `==` on floats) -/
+
+theorem joinPairsBy_beq {V : Type} [BEq V] (ps : List (Nat × V)) : joinPairsBy (· == ·) ps = joinPairs ps := by
+  induction ps with
+  | nil => rfl
+  | cons p ps ih =>
+    obtain ⟨e, v⟩ := p
+    cases ps with
+    | nil => rfl
+    | cons q ps =>
+      obtain ⟨e', v'⟩ := q
+      simp only [joinPairsBy, joinPairs, ih]
+
+theorem zipRleBy_beq {α β γ : Type} [BEq γ] (f : α → β → γ) (a : Rle α) (b : Rle β) :
+    zipRleBy (· == ·) f a b = zipRle f a b := by
+  simp only [zipRleBy, zipRle, joinPairsBy_beq]
+
+/-- two lists agree position by position up to `R` -/
+def RelL {V : Type} (R : V → V → Prop) (l₁ l₂ : List V) : Prop :=
+  l₁.length = l₂.length ∧ ∀ p ∈ l₁.zip l₂, R p.1 p.2
+
+theorem RelL.refl {V : Type} {R : V → V → Prop} (hr : ∀ a, R a a) (l : List V) : RelL R l l := by
+  refine ⟨rfl, ?_⟩
+  intro p hp
+  induction l with
+  | nil => simp at hp
+  | cons a l ih =>
+    simp only [List.zip_cons_cons, List.mem_cons] at hp
+    rcases hp with rfl | hp
+    · exact hr a
+    · exact ih hp
+
+theorem RelL.append {V : Type} {R : V → V → Prop} {a b c d : List V} (h1 : RelL R a b) (h2 : RelL R c d) :
+    RelL R (a ++ c) (b ++ d) := by
+  refine ⟨by simp [h1.1, h2.1], ?_⟩
+  intro p hp
+  rw [List.zip_append h1.1] at hp
+  rcases List.mem_append.1 hp with hp | hp
+  · exact h1.2 p hp
+  · exact h2.2 p hp
+
+theorem RelL.trans {V : Type} {R : V → V → Prop} (ht : ∀ a b c, R a b → R b c → R a c) :
+    ∀ {a b c : List V}, RelL R a b → RelL R b c → RelL R a c := by
+  intro a
+  induction a with
+  | nil =>
+    intro b c h1 h2
+    have : b = [] := by cases b with | nil => rfl | cons _ _ => exact absurd h1.1 (by simp)
+    subst this
+    have : c = [] := by cases c with | nil => rfl | cons _ _ => have := h2.1; simp at this
+    subst this
+    exact ⟨rfl, by simp⟩
+  | cons x a ih =>
+    intro b c h1 h2
+    cases b with
+    | nil => have := h1.1; simp at this
+    | cons y b =>
+      cases c with
+      | nil => have := h2.1; simp at this
+      | cons z c =>
+        have h1' : RelL R a b := ⟨by simpa using h1.1, fun p hp => h1.2 p (by simp [hp])⟩
+        have h2' : RelL R b c := ⟨by simpa using h2.1, fun p hp => h2.2 p (by simp [hp])⟩
+        have := ih h1' h2'
+        refine ⟨by simp [this.1], ?_⟩
+        intro p hp
+        simp only [List.zip_cons_cons, List.mem_cons] at hp
+        rcases hp with rfl | hp
+        · exact ht _ _ _ (h1.2 (x, y) (by simp)) (h2.2 (y, z) (by simp))
+        · exact this.2 p hp
+
+theorem RelL.replicate {V : Type} {R : V → V → Prop} (n : Nat) {a b : V} (h : R a b) :
+    RelL R (List.replicate n a) (List.replicate n b) := by
+  refine ⟨by simp, ?_⟩
+  intro p hp
+  induction n with
+  | zero => simp at hp
+  | succ n ih =>
+    simp only [List.replicate_succ, List.zip_cons_cons, List.mem_cons] at hp
+    rcases hp with rfl | hp
+    · exact h
+    · exact ih hp
+
+/-- equal, or equal under the test -/
+def EqOr {V : Type} (eq : V → V → Bool) (a b : V) : Prop := a = b ∨ eq a b = true
+
+theorem EqOr.refl {V : Type} (eq : V → V → Bool) (a : V) : EqOr eq a a := Or.inl rfl
+
+theorem EqOr.trans' {V : Type} {eq : V → V → Bool} (ht : ∀ a b c, eq a b = true → eq b c = true → eq a c = true) :
+    ∀ a b c, EqOr eq a b → EqOr eq b c → EqOr eq a c := by
+  intro a b c h1 h2
+  rcases h1 with rfl | h1
+  · exact h2
+  · rcases h2 with rfl | h2
+    · exact Or.inr h1
+    · exact Or.inr (ht a b c h1 h2)
+
+/-- joining runs whose values are equal *under the test* changes the dense meaning only up to that test: every
+position keeps a value that the test (an equivalence: symmetric, transitive) identifies with the original one -/
+theorem joinPairsBy_rel {V : Type} (eq : V → V → Bool) (hs : ∀ a b, eq a b = true → eq b a = true)
+    (ht : ∀ a b c, eq a b = true → eq b c = true → eq a c = true) (ps : List (Nat × V)) : ∀ c, Mono c ps →
+    RelL (EqOr eq) (expandP c (joinPairsBy eq ps)) (expandP c ps) := by
+  induction ps with
+  | nil => intro c _; exact RelL.refl (EqOr.refl eq) _
+  | cons p ps ih =>
+    intro c hm
+    obtain ⟨e, v⟩ := p
+    cases ps with
+    | nil => exact RelL.refl (EqOr.refl eq) _
+    | cons q ps =>
+      obtain ⟨e', v'⟩ := q
+      obtain ⟨h1, h2, h3⟩ := hm
+      simp only [joinPairsBy]
+      split
+      · rename_i heq
+        have ih' := ih c ⟨by omega, h3⟩
+        refine RelL.trans (EqOr.trans' ht) ih' ?_
+        simp only [expandP]
+        rw [replicate_split v' c e e' h1 h2, List.append_assoc]
+        exact RelL.append (RelL.replicate _ (Or.inr (hs _ _ heq))) (RelL.refl (EqOr.refl eq) _)
+      · simp only [expandP]
+        exact RelL.append (RelL.refl (EqOr.refl eq) _) (ih e ⟨h2, h3⟩)
+
+theorem joinPairsBy_sublist {V : Type} (eq : V → V → Bool) (ps : List (Nat × V)) : (joinPairsBy eq ps).Sublist ps := by
+  induction ps with
+  | nil => exact List.Sublist.slnil
+  | cons p ps ih =>
+    obtain ⟨e, v⟩ := p
+    cases ps with
+    | nil => exact List.Sublist.refl _
+    | cons q ps =>
+      obtain ⟨e', v'⟩ := q
+      simp only [joinPairsBy]
+      split
+      · exact List.Sublist.cons _ ih
+      · exact List.Sublist.cons₂ _ ih
+
+/-- **ufunc homomorphism for any equality test** (the float engine: `join_runs` compares with IEEE `==`): the result
+is a well-formed run-length array and its dense meaning is the element-wise ufunc of the dense operands at every
+position *up to the test* — for IEEE `==` on finite values: up to the sign of zero. With Lean's `=` this is
+`ufunc_homomorphism`. -/
+theorem ufunc_homomorphism_rel {α β γ : Type} (eq : γ → γ → Bool) (hs : ∀ a b, eq a b = true → eq b a = true)
+    (ht : ∀ a b c, eq a b = true → eq b c = true → eq a c = true) (f : α → β → γ) (a : Rle α) (b : Rle β)
+    (ha : a.WF) (hb : b.WF) :
+    (zipRleBy eq f a b).WF ∧ RelL (EqOr eq) (zipRleBy eq f a b).toDense (List.zipWith f a.toDense b.toDense) := by
+  obtain ⟨ha1, ha2⟩ := pairsOf_of_WF a ha
+  obtain ⟨hb1, hb2⟩ := pairsOf_of_WF b hb
+  have hz := zipRuns_lower f _ _ 0 ha1 hb1
+  constructor
+  · refine ⟨by simp [zipRleBy, ofPairs], rfl, ?_⟩
+    simp only [zipRleBy, ofPairs]
+    simp only [SMono] at hz
+    have hsub : (0 :: (joinPairsBy eq (zipRuns f (pairsOf a) (pairsOf b))).map (·.1)).Sublist
+        (0 :: (zipRuns f (pairsOf a) (pairsOf b)).map (·.1)) :=
+      List.Sublist.cons₂ _ ((joinPairsBy_sublist eq _).map _)
+    exact List.Pairwise.sublist hsub hz
+  · simp only [zipRleBy]
+    rw [ofPairs_dense, ← ha2, ← hb2, ← zipRuns_dense f _ _ 0 ha1.mono hb1.mono]
+    exact joinPairsBy_rel eq hs ht _ 0 hz.mono
+
 end C09
